@@ -130,7 +130,7 @@ def run():
     # contiguous-by-stride batches keep "smallest first" inside every batch; merge order is batch order
     batches = [its[i::n] for i in range(n)]
     batches = [b for b in batches if b]
-    parts = core.pmap(work, batches)
+    parts = _load().pmap(work, batches)
     ck.merge(parts)
     # violations: keep deterministic smallest-first order across batches
     ck.part.violations.sort(key=lambda v: (len(v[1]), v[0], v[1]))
